@@ -220,6 +220,9 @@ func main() {
 				call(a, nowMs(), 1+rng.Intn(burst))
 			}
 			cl.Close()
+			if r == 0 {
+				crowd()
+			}
 			gcRace(r)
 			if r%5 == 0 {
 				globalRound(r)
@@ -326,4 +329,39 @@ func globalRound(r int) {
 	}
 	call("10.7.1.1", 1) // 1.4 tokens
 	call("10.7.1.1", 1)
+}
+
+// crowd: a subnet spends its burst, stays away for three seconds while more than 65536 other subnets ask one query
+// each (a flood from spoofed sources), and comes back: what it may spend is what three seconds refilled, however
+// many buckets the limiter holds by then.  Only the subnet's own events are recorded: the others are strangers to
+// its bucket.
+func crowd() {
+	base := time.Now().Add(-10 * time.Minute)
+	at := func(ms int) time.Time { return base.Add(time.Duration(ms) * time.Millisecond) }
+	cl := limiter.NewClientLimiter(limiter.ClientLimiterOpts{Limit: 1, Burst: 40, V4Mask: 24, V6Mask: 48})
+	defer cl.Close()
+	tr.Emit("lim.cfg", "limit", 1, "burst", 40, "v4", 24, "v6", 48)
+	for _, a := range []string{"10.8.1.1", "2001:db8:8:1::1"} {
+		ad := netip.MustParseAddr(a)
+		call := func(ms, n int) {
+			res := cl.AllowN(ad, at(ms), n)
+			tr.Emit("lim.v", "addr", fromAddr(ad), "t", ms, "n", n, "res", res)
+		}
+		t := 1000
+		call(t, 25)
+		call(t, 15)
+		call(t, 1) // empty
+		for k := 0; k < 3; k++ {
+			t += 1000
+			for i := 0; i < 22100; i++ {
+				x := k*22100 + i
+				cl.AllowN(netip.AddrFrom4([4]byte{11 + byte(x>>16), byte(x >> 8), byte(x), 1}), at(t+i%900), 1)
+			}
+		}
+		t += 1000
+		call(t, 5) // four seconds: four tokens
+		call(t, 4)
+		call(t, 1)
+		call(t+36000, 40)
+	}
 }
